@@ -10,6 +10,8 @@ at its baseline and injected events must not reach anything that belonged to the
 """
 from __future__ import annotations
 
+from ..excfam import family
+
 import asyncio
 import itertools
 import logging
@@ -247,7 +249,7 @@ def run_shard(desc) -> Acc:
                     outcome.update(kind="cancelled", t=clock())
                     raise
                 except BaseException as ex:  # noqa: BLE001
-                    outcome.update(kind="raise", t=clock(), exc=type(ex).__name__)
+                    outcome.update(kind="raise", t=clock(), exc=family(ex))
 
             task = asyncio.ensure_future(wrapper())
             for _ in range(8):
@@ -482,7 +484,7 @@ def run_status_overlap(desc) -> Acc:
                     out[i].update(kind="cancelled", t=clock())
                     raise
                 except BaseException as ex:  # noqa: BLE001
-                    out[i].update(kind="raise", t=clock(), exc=type(ex).__name__)
+                    out[i].update(kind="raise", t=clock(), exc=family(ex))
 
             tasks = [asyncio.ensure_future(actor(i, k)) for i, k in enumerate(actors)]
             await asyncio.sleep(1.0)  # every command has been answered by now
